@@ -332,6 +332,10 @@ impl Clone for DnsRecordBox {
 
 const U16_SIZE: usize = 2;
 
+#[cfg(feature = "verif-hooks")]
+#[path = "verif_wire.rs"]
+pub mod verif_wire;
+
 /// Returns `RRType` for a given IP address.
 #[inline]
 pub const fn ip_address_rr_type(address: &IpAddr) -> RRType {
@@ -2166,6 +2170,8 @@ impl DnsIncoming {
     fn read_questions(&mut self) -> Result<()> {
         trace!("read_questions: {}", &self.num_questions);
         for i in 0..self.num_questions {
+            #[cfg(feature = "verif-hooks")]
+            crate::verif::tick();
             let name = self.read_name()?;
 
             let data = &self.data[self.offset..];
@@ -2241,6 +2247,8 @@ impl DnsIncoming {
         const RR_HEADER_REMAIN: usize = 10;
 
         for _ in 0..count {
+            #[cfg(feature = "verif-hooks")]
+            crate::verif::tick();
             let name = self.read_name()?;
             let slice = &self.data[self.offset..];
 
@@ -2502,6 +2510,8 @@ impl DnsIncoming {
         // - a pointer
         // - a sequence of labels ending with a pointer"
         loop {
+            #[cfg(feature = "verif-hooks")]
+            crate::verif::tick();
             if offset >= data.len() {
                 return Err(Error::Msg(format!(
                     "read_name: offset: {} data len {}. DnsIncoming: {:?}",
